@@ -378,6 +378,21 @@ def _lower_returns(stmts, res):
                 return out
             raise _Cannot('conditional return with fall-through')
         if isinstance(st, ast.Try):
+            if _has_return(st.finalbody):
+                raise _Cannot('return in finally')
+            # every handler leaves, the body falls through: the code after
+            # the try runs exactly when no handler ran -- it is the `else`
+            if rest and not _has_return(st.body) and st.handlers and all(
+                    _always_exits(h.body) for h in st.handlers):
+                out.append(ast.Try(
+                    body=st.body,
+                    handlers=[ast.ExceptHandler(
+                        type=h.type, name=h.name,
+                        body=_lower_returns(h.body, res) or [ast.Pass()])
+                        for h in st.handlers],
+                    orelse=_lower_returns(st.orelse + rest, res),
+                    finalbody=st.finalbody))
+                return out
             # try: return X except ...: raise / return  -- as last statement
             if rest and not _always_exits([st]):
                 raise _Cannot('try with return followed by code')
@@ -432,6 +447,24 @@ def _simple_arg(a):
         and a.value.id == 'self')
 
 
+def _pure_expr(a):
+    """Comparison / boolean / arithmetic expression over plain names and
+    constants: evaluating it later gives the same value as long as none of
+    its names is re-bound in between."""
+    if isinstance(a, (ast.Constant, ast.Name)):
+        return True
+    if isinstance(a, ast.Compare):
+        return _pure_expr(a.left) and all(_pure_expr(c)
+                                          for c in a.comparators) and all(
+            isinstance(o, (ast.Eq, ast.NotEq, ast.Lt, ast.LtE, ast.Gt,
+                           ast.GtE, ast.Is, ast.IsNot)) for o in a.ops)
+    if isinstance(a, ast.BoolOp):
+        return all(_pure_expr(v) for v in a.values)
+    if isinstance(a, ast.UnaryOp) and isinstance(a.op, (ast.Not, ast.USub)):
+        return _pure_expr(a.operand)
+    return False
+
+
 def _inlinable(fn):
     a = fn.args
     if a.vararg or a.kwarg or a.posonlyargs:
@@ -449,6 +482,78 @@ def _inlinable(fn):
                 x.func.value.id == 'self':
             return False
     return True
+
+
+def _fold(e):
+    """Fold tests over constants (None is None, True or x ...)."""
+    if isinstance(e, ast.UnaryOp) and isinstance(e.op, ast.Not):
+        v = _fold(e.operand)
+        if isinstance(v, ast.Constant):
+            return ast.copy_location(ast.Constant(value=not v.value), e)
+        return ast.copy_location(ast.UnaryOp(op=e.op, operand=v), e)
+    if isinstance(e, ast.Compare) and len(e.ops) == 1 and \
+            isinstance(e.left, ast.Constant) and \
+            isinstance(e.comparators[0], ast.Constant):
+        a, b = e.left.value, e.comparators[0].value
+        op = e.ops[0]
+        try:
+            val = {ast.Is: a is b, ast.IsNot: a is not b, ast.Eq: a == b,
+                   ast.NotEq: a != b}.get(type(op))
+        except Exception:
+            val = None
+        if val is not None:
+            return ast.copy_location(ast.Constant(value=val), e)
+    if isinstance(e, ast.BoolOp):
+        vals = [_fold(v) for v in e.values]
+        is_or = isinstance(e.op, ast.Or)
+        keep = []
+        for v in vals:
+            if isinstance(v, ast.Constant):
+                if bool(v.value) == is_or:
+                    # short-circuits here: earlier operands have no effects
+                    # worth keeping only if they are constants too
+                    if not keep:
+                        return ast.copy_location(
+                            ast.Constant(value=bool(v.value)), e)
+                    keep.append(v)
+                    break
+                continue            # neutral element
+            keep.append(v)
+        if not keep:
+            return ast.copy_location(ast.Constant(value=not is_or), e)
+        if len(keep) == 1:
+            return keep[0]
+        return ast.copy_location(ast.BoolOp(op=e.op, values=keep), e)
+    return e
+
+
+def _tidy(stmts):
+    """Drop `x = x` and prune `if <constant>:` left by substituting
+    constant arguments."""
+    out = []
+    for st in stmts:
+        if isinstance(st, ast.Assign) and len(st.targets) == 1 and \
+                isinstance(st.targets[0], ast.Name) and \
+                isinstance(st.value, ast.Name) and \
+                st.targets[0].id == st.value.id:
+            continue
+        if isinstance(st, ast.If):
+            st.test = _fold(st.test)
+        if isinstance(st, ast.If) and isinstance(st.test, ast.Constant):
+            out.extend(_tidy(st.body if st.test.value else st.orelse))
+            continue
+        for fld in ('body', 'orelse', 'finalbody'):
+            lst = getattr(st, fld, None)
+            if isinstance(lst, list) and lst and \
+                    isinstance(lst[0], ast.stmt):
+                new = _tidy(lst)
+                if not new and fld == 'body':
+                    new = [ast.Pass()]
+                setattr(st, fld, new)
+        for h in getattr(st, 'handlers', []) or []:
+            h.body = _tidy(h.body) or [ast.Pass()]
+        out.append(st)
+    return out
 
 
 class _Inliner:
@@ -546,12 +651,23 @@ class _Inliner:
             a = actual[p]
             if _simple_arg(a) and p not in stored:
                 subst[p] = a
+            elif _pure_expr(a) and p not in stored and not (
+                    {x.id for x in ast.walk(a) if isinstance(x, ast.Name)}
+                    & stored):
+                subst[p] = a
             elif isinstance(a, ast.Name) and a.id == p and \
-                    self.target_names == {p}:
+                    p in self.target_names:
                 # x = helper(x, ...): the helper's own `x` is the caller's
                 pass
             else:
                 nm = p if p not in taken else p + sfx
+                # x = helper(<expr>, ...) with parameter x: the caller's x
+                # is overwritten by the result anyway
+                if nm != p and p in self.target_names and not any(
+                        isinstance(x, ast.Name) and x.id == p
+                        for q, b in actual.items() if q != p
+                        for x in ast.walk(b)):
+                    nm = p
                 taken.add(nm)
                 pre.append(ast.Assign(
                     targets=[ast.Name(id=nm, ctx=ast.Store())],
@@ -562,7 +678,11 @@ class _Inliner:
             if nm in rename or nm in subst or nm == 'self' or \
                     nm in pos + kwonly:
                 continue
-            if nm in taken and self.target_names != {nm}:
+            arg_names = {x.id for e_ in subst.values()
+                         for x in ast.walk(e_) if isinstance(x, ast.Name)}
+            if nm in taken and not (
+                    (nm in self.target_names or self.caller_dead) and
+                    nm not in arg_names):
                 rename[nm] = nm + sfx
             taken.add(rename.get(nm, nm))
         # __traceback_info__ stays what it is
@@ -586,9 +706,14 @@ class _Inliner:
             res = ast.Constant(value=None)
         else:
             rname = '_r' + sfx
+            # the result is assigned at the very end of every path, so the
+            # caller's target can take it directly -- unless a `finally`
+            # of the helper still looks at that name afterwards
             if result_name is not None and not any(
                     isinstance(x, ast.Name) and x.id == result_name
-                    for s_ in body for x in ast.walk(s_)):
+                    for s_ in body for t_ in ast.walk(s_)
+                    if isinstance(t_, ast.Try)
+                    for f_ in t_.finalbody for x in ast.walk(f_)):
                 rname = result_name
             stmts = _lower_returns(body, rname)
             if not _always_exits(fn.body):
@@ -598,7 +723,7 @@ class _Inliner:
                     value=ast.Constant(value=None))] + stmts
             res = ast.Name(id=rname, ctx=ast.Load())
         self.count += 1
-        return pre + stmts, res
+        return _tidy(pre + stmts), res
 
     def single_expr(self, fn):
         body = [s for s in fn.body
@@ -622,16 +747,21 @@ class _Inliner:
 
     caller_names = set()
     target_names = set()
+    caller_dead = False     # the statement being expanded is a `return`
 
     def function(self, fn, cls, qual):
-        self.caller_names = {x.id for x in ast.walk(fn)
-                             if isinstance(x, ast.Name)} | {
-            a.arg for a in fn.args.args + fn.args.kwonlyargs}
         nested = {}
         for st in fn.body:
             if isinstance(st, ast.FunctionDef) and \
                     self.is_new(f'{qual}.{st.name}'):
                 nested[st.name] = st
+        self.caller_names = {a.arg for a in
+                             fn.args.args + fn.args.kwonlyargs}
+        for st in fn.body:
+            if st in nested.values():
+                continue
+            self.caller_names |= {x.id for x in ast.walk(st)
+                                  if isinstance(x, ast.Name)}
         for _ in range(3):          # helpers calling helpers
             before = self.count
             self.block(fn, 'body', cls, qual, nested)
@@ -685,9 +815,14 @@ class _Inliner:
         call = None
         mode = None
         self.target_names = set()
+        self.caller_dead = isinstance(st, ast.Return)
         if isinstance(st, ast.Assign) and len(st.targets) == 1 and \
                 isinstance(st.targets[0], ast.Name):
             self.target_names = {st.targets[0].id}
+        elif isinstance(st, ast.Assign) and len(st.targets) == 1 and \
+                isinstance(st.targets[0], ast.Tuple) and all(
+                    isinstance(e, ast.Name) for e in st.targets[0].elts):
+            self.target_names = {e.id for e in st.targets[0].elts}
         if isinstance(st, ast.Assign) and isinstance(st.value, ast.Call):
             call, mode = st.value, 'assign'
         elif isinstance(st, ast.Return) and isinstance(st.value, ast.Call):
@@ -711,6 +846,30 @@ class _Inliner:
         fn = None
         if call is not None:
             fn, is_method = self.target(call, cls, qual, nested)
+        if call is None and isinstance(st, (ast.Return, ast.Assign)) and \
+                isinstance(st.value, ast.Tuple):
+            # (plain, ..., HELPER(...), ...): hoist the first helper call
+            def plain0(e):
+                return isinstance(e, (ast.Constant, ast.Name)) or (
+                    isinstance(e, ast.Attribute) and plain0(e.value))
+            for i, a in enumerate(st.value.elts):
+                if plain0(a):
+                    continue
+                if isinstance(a, ast.Call):
+                    fn2, ism = self.target(a, cls, qual, nested)
+                    if fn2 is not None and self.single_expr(fn2) is None:
+                        stmts, res = self.expand(a, fn2, ism, True)
+                        if not isinstance(res, (ast.Name, ast.Constant)):
+                            self.uid += 1
+                            tmp = f'_t__{fn2.name.strip("_")}{self.uid}'
+                            stmts = stmts + [ast.Assign(
+                                targets=[ast.Name(id=tmp, ctx=ast.Store())],
+                                value=res)]
+                            res = ast.Name(id=tmp, ctx=ast.Load())
+                        st.value.elts[i] = res
+                        return stmts + [st]
+                break
+            return None
         if fn is None and mode in ('assign', 'return', 'expr'):
             # outer(simple..., HELPER(...), ...): the helper call is an
             # argument of the statement's call and everything evaluated
